@@ -22,7 +22,7 @@ type caseC09 struct {
 
 func genC09(t *rapid.T, ev *evid.Rec) caseC09 {
 	before := gen.TrailingCRExcluded
-	d := gen.Doc(t, gen.Opts{AllowMany: true, Controls: true, BigDurations: true})
+	d := gen.Doc(t, gen.Opts{AllowMany: true, Controls: true, BigDurations: true, TabSeparators: true})
 	for i := before; i < gen.TrailingCRExcluded; i++ {
 		ev.Exclude("F10:summary-line-ending-in-lone-CR")
 	}
